@@ -218,133 +218,159 @@ theorem numberOk_int {kvs k} (h : parseNumKw kvs = some k) (n : Int) :
 
 /-! ### boundary values of `_positive_number` -/
 
-theorem numLower_mem {v mn mx mo n d} (h : (n, d) ∈ (numLower v mn mx mo).1) :
+theorem numLower_mem {vz vc mn mx mo n d} (h : (n, d) ∈ (numLower vz vc mn mx mo).1) :
     ∃ lo, mn = some lo ∧
-      (n = smallestOf lo mo ∨
-       (n = largerOf lo mo ∧ (isAbsent v mx = true ∨ leOpt n mx = true))) := by
-  unfold numLower at h
+      ((n = smallestOf lo mo ∧ (vc = .asFound ∨ leOpt n mx = true)) ∨
+       (n = largerOf lo mo ∧ (isAbsent vz mx = true ∨ leOpt n mx = true))) := by
   cases mn with
-  | none => simp at h
+  | none => simp [numLower] at h
   | some lo =>
     refine ⟨lo, rfl, ?_⟩
-    simp only at h
-    split at h
-    · rename_i hc
-      simp only [Bool.and_eq_true, Bool.or_eq_true] at hc
-      simp only [List.mem_cons, Prod.mk.injEq, List.mem_nil_iff, or_false] at h
-      rcases h with ⟨h, _⟩ | ⟨h, _⟩
-      · left; exact h
-      · right; subst h; exact ⟨rfl, hc.2⟩
-    · simp only [List.mem_cons, Prod.mk.injEq, List.mem_nil_iff, or_false] at h
-      left; exact h.1
+    simp only [numLower, List.mem_append] at h
+    rcases h with h | h
+    · simp only [List.mem_ite_nil_right, List.mem_cons, Prod.mk.injEq, List.mem_nil_iff, or_false] at h
+      obtain ⟨hfirst, hn, _⟩ := h
+      left; rw [hn]
+      refine ⟨rfl, ?_⟩
+      cases vc with
+      | asFound => left; rfl
+      | repaired => right; simpa [crossOk] using hfirst
+    · simp only [List.mem_ite_nil_right, List.mem_cons, Prod.mk.injEq, List.mem_nil_iff, or_false,
+        Bool.and_eq_true, Bool.or_eq_true] at h
+      obtain ⟨⟨_, hc⟩, hn, _⟩ := h
+      right; rw [hn]; exact ⟨rfl, hc⟩
 
-theorem numUpper_mem {mn mx mo seen n d} (h : (n, d) ∈ numUpper mn mx mo seen) :
+theorem numUpper_mem {vc mn mx mo seen n d} (h : (n, d) ∈ numUpper vc mn mx mo seen) :
     ∃ hi, mx = some hi ∧
-      (n = largestOf hi mo ∨ (n = smallerOf hi mo ∧ geOpt n mn = true)) := by
-  unfold numUpper at h
+      ((n = largestOf hi mo ∧ (vc = .asFound ∨ geOpt n mn = true)) ∨ (n = smallerOf hi mo ∧ geOpt n mn = true)) := by
   cases mx with
-  | none => simp at h
+  | none => simp [numUpper] at h
   | some hi =>
     refine ⟨hi, rfl, ?_⟩
-    simp only [List.mem_append] at h
+    simp only [numUpper, List.mem_append] at h
     rcases h with h | h
-    · split at h
-      · simp at h
-      · simp only [List.mem_cons, Prod.mk.injEq, List.mem_nil_iff, or_false] at h
-        left; exact h.1
-    · split at h
-      · rename_i hc
-        simp only [Bool.and_eq_true] at hc
-        simp only [List.mem_cons, Prod.mk.injEq, List.mem_nil_iff, or_false] at h
-        right; rw [h.1]; exact ⟨rfl, hc.2⟩
-      · simp at h
+    · simp only [List.mem_ite_nil_right, List.mem_cons, Prod.mk.injEq, List.mem_nil_iff, or_false,
+        Bool.and_eq_true] at h
+      obtain ⟨⟨_, hfirst⟩, hn, _⟩ := h
+      left; rw [hn]
+      refine ⟨rfl, ?_⟩
+      cases vc with
+      | asFound => left; rfl
+      | repaired => right; simpa [crossOk] using hfirst
+    · simp only [List.mem_ite_nil_right, List.mem_cons, Prod.mk.injEq, List.mem_nil_iff, or_false,
+        Bool.and_eq_true] at h
+      obtain ⟨⟨_, hc⟩, hn, _⟩ := h
+      right; rw [hn]; exact ⟨rfl, hc⟩
 
-theorem boundary_ok (mn mx mo : Option Int) (hpos : ∀ x, mo = some x → 0 < x) (n0 : Int)
-    (hlo0 : ∀ lo, mn = some lo → lo ≤ n0) (hhi0 : ∀ hi, mx = some hi → n0 ≤ hi) (hm0 : ∀ x, mo = some x → n0 % x = 0) :
-    ∀ p ∈ (numLower .repaired mn mx mo).1 ++ numUpper mn mx mo (numLower .repaired mn mx mo).2,
+/-- Every boundary value lies within the effective bounds and is a multiple.  With the crossing guard (`vc = .repaired`)
+    nothing is assumed about the schema: each value is tested against the opposite bound before it is emitted.
+    Without it (`vc = .asFound`) the "Minimum value" / "Maximum value" are only known to be the least / greatest multiple
+    on their own side, so some number `n0` satisfying all three constraints is needed. -/
+theorem boundary_ok (vc : Variant) (mn mx mo : Option Int) (hpos : ∀ x, mo = some x → 0 < x)
+    (hsat : vc = .asFound → ∃ n0 : Int,
+      (∀ lo, mn = some lo → lo ≤ n0) ∧ (∀ hi, mx = some hi → n0 ≤ hi) ∧ (∀ x, mo = some x → n0 % x = 0)) :
+    ∀ p ∈ (numLower .repaired vc mn mx mo).1 ++ numUpper vc mn mx mo (numLower .repaired vc mn mx mo).2,
       (∀ lo, mn = some lo → lo ≤ p.1) ∧ (∀ hi, mx = some hi → p.1 ≤ hi) ∧ (∀ x, mo = some x → p.1 % x = 0) := by
   intro ⟨n, d⟩ hp
   simp only [List.mem_append] at hp
   rcases hp with hp | hp
   · obtain ⟨lo, hmn, hcase⟩ := numLower_mem hp
-    have hlo0' := hlo0 lo hmn
     have hupper : ∀ hi, mx = some hi → (isAbsent .repaired mx = true ∨ leOpt n mx = true) → n ≤ hi := by
       intro hi hhi hc
       rcases hc with hc | hc
       · simp [isAbsent, hhi] at hc
       · simpa [leOpt, hhi] using hc
+    -- the "Minimum value" against the maximum: by the guard, or through the satisfying number
+    have hsmall : ∀ hi, mx = some hi → n = smallestOf lo mo → (vc = .asFound ∨ leOpt n mx = true) → n ≤ hi := by
+      intro hi hhi hn hc
+      rcases hc with hc | hc
+      · obtain ⟨n0, hlo0, hhi0, hm0⟩ := hsat hc
+        have h1 := hlo0 lo hmn
+        have h2 := hhi0 hi hhi
+        cases mo with
+        | none => simp only [smallestOf] at hn; omega
+        | some x =>
+          simp only [smallestOf] at hn
+          have := closest_least lo x n0 (hpos x rfl) (hm0 x rfl) h1
+          omega
+      · simpa [leOpt, hhi] using hc
     cases mo with
     | none =>
-      simp only [smallestOf, largerOf] at hcase
+      simp only [smallestOf, largerOf] at hcase hsmall
       refine ⟨?_, ?_, by intro x hx; simp at hx⟩
       · intro lo' hlo'; rw [hmn] at hlo'; cases hlo'
-        rcases hcase with h | ⟨h, _⟩ <;> simp only [h] <;> omega
+        rcases hcase with ⟨h, _⟩ | ⟨h, _⟩ <;> simp only [h] <;> omega
       · intro hi hhi
-        rcases hcase with h | ⟨h, hc⟩
-        · simp only [h]; have := hhi0 hi hhi; omega
+        rcases hcase with ⟨h, hc⟩ | ⟨h, hc⟩
+        · exact hsmall hi hhi h hc
         · exact hupper hi hhi hc
     | some x =>
       have hx := hpos x rfl
-      have hm0' := hm0 x rfl
-      simp only [smallestOf, largerOf] at hcase
+      simp only [smallestOf, largerOf] at hcase hsmall
       refine ⟨?_, ?_, ?_⟩
       · intro lo' hlo'; rw [hmn] at hlo'; cases hlo'
         have := closest_ge lo x hx
-        rcases hcase with h | ⟨h, _⟩ <;> simp only [h] <;> omega
+        rcases hcase with ⟨h, _⟩ | ⟨h, _⟩ <;> simp only [h] <;> omega
       · intro hi hhi
-        rcases hcase with h | ⟨h, hc⟩
-        · simp only [h]
-          have := closest_least lo x n0 hx hm0' hlo0'
-          have := hhi0 hi hhi; omega
+        rcases hcase with ⟨h, hc⟩ | ⟨h, hc⟩
+        · exact hsmall hi hhi h hc
         · exact hupper hi hhi hc
       · intro x' hx'; cases hx'
         have := closest_mod lo x hx
-        rcases hcase with h | ⟨h, _⟩ <;> simp only [h]
+        rcases hcase with ⟨h, _⟩ | ⟨h, _⟩ <;> simp only [h]
         · exact this
         · rw [Int.add_emod, this]; simp
   · obtain ⟨hi, hmx, hcase⟩ := numUpper_mem hp
-    have hhi0' := hhi0 hi hmx
     have hlower : ∀ lo, mn = some lo → geOpt n mn = true → lo ≤ n := by
       intro lo hlo hc
       simpa [geOpt, hlo] using hc
+    have hlarge : ∀ lo, mn = some lo → n = largestOf hi mo → (vc = .asFound ∨ geOpt n mn = true) → lo ≤ n := by
+      intro lo hlo hn hc
+      rcases hc with hc | hc
+      · obtain ⟨n0, hlo0, hhi0, hm0⟩ := hsat hc
+        have h1 := hlo0 lo hlo
+        have h2 := hhi0 hi hmx
+        cases mo with
+        | none => simp only [largestOf] at hn; omega
+        | some x =>
+          simp only [largestOf] at hn
+          have := floorMul_greatest hi x n0 (hpos x rfl) (hm0 x rfl) h2
+          omega
+      · exact hlower lo hlo hc
     cases mo with
     | none =>
-      simp only [largestOf, smallerOf] at hcase
+      simp only [largestOf, smallerOf] at hcase hlarge
       refine ⟨?_, ?_, by intro x hx; simp at hx⟩
       · intro lo hlo
-        rcases hcase with h | ⟨h, hc⟩
-        · simp only [h]; have := hlo0 lo hlo; omega
+        rcases hcase with ⟨h, hc⟩ | ⟨h, hc⟩
+        · exact hlarge lo hlo h hc
         · exact hlower lo hlo hc
       · intro hi' hhi'; rw [hmx] at hhi'; cases hhi'
-        rcases hcase with h | ⟨h, _⟩ <;> simp only [h] <;> omega
+        rcases hcase with ⟨h, _⟩ | ⟨h, _⟩ <;> simp only [h] <;> omega
     | some x =>
       have hx := hpos x rfl
-      have hm0' := hm0 x rfl
-      simp only [largestOf, smallerOf] at hcase
+      simp only [largestOf, smallerOf] at hcase hlarge
       refine ⟨?_, ?_, ?_⟩
       · intro lo hlo
-        rcases hcase with h | ⟨h, hc⟩
-        · simp only [h]
-          have := floorMul_greatest hi x n0 hx hm0' hhi0'
-          have := hlo0 lo hlo; omega
+        rcases hcase with ⟨h, hc⟩ | ⟨h, hc⟩
+        · exact hlarge lo hlo h hc
         · exact hlower lo hlo hc
       · intro hi' hhi'; rw [hmx] at hhi'; cases hhi'
         have := floorMul_le hi x hx
-        rcases hcase with h | ⟨h, _⟩ <;> simp only [h] <;> omega
+        rcases hcase with ⟨h, _⟩ | ⟨h, _⟩ <;> simp only [h] <;> omega
       · intro x' hx'; cases hx'
         have := floorMul_mod hi x hx
-        rcases hcase with h | ⟨h, _⟩ <;> simp only [h]
+        rcases hcase with ⟨h, _⟩ | ⟨h, _⟩ <;> simp only [h]
         · exact this
         · rw [Int.sub_emod, this]; simp
 
-/-- every boundary value of the repaired `_positive_number` lies within the effective bounds and is a multiple,
-    provided some integer does -/
-theorem numBoundary_repaired_ok (k : NumKw) (hpos : ∀ x, k.multipleOf = some x → 0 < x)
-    (hsat : ∃ n0, NumKw.okInt k n0) :
-    ∀ p ∈ numBoundary .repaired .repaired k, NumKw.okInt k p.1 := by
-  obtain ⟨n0, hlo0, hhi0, hm0⟩ := hsat
+/-- every boundary value of `_positive_number` with the zero-bound and exclusive-bound sites repaired lies within the
+    effective bounds and is a multiple — unconditionally with the crossing guard, provided some integer does without -/
+theorem numBoundary_repaired_ok (vc : Variant) (k : NumKw) (hpos : ∀ x, k.multipleOf = some x → 0 < x)
+    (hsat : vc = .asFound → ∃ n0, NumKw.okInt k n0) :
+    ∀ p ∈ numBoundary .repaired .repaired vc k, NumKw.okInt k p.1 := by
   intro p hp
-  exact boundary_ok (effMin .repaired k) (effMax .repaired k) k.multipleOf hpos n0 hlo0 hhi0 hm0 p hp
+  exact boundary_ok vc (effMin .repaired k) (effMax .repaired k) k.multipleOf hpos hsat p hp
 
 /-! ### compositional soundness of generators -/
 
@@ -487,30 +513,30 @@ theorem labelOk_of_exempt {fuel env S gv} (h : exempt gv.desc = true) : labelOk 
   simp [labelOk, h]
 
 /-- `_positive_number` is sound whenever its boundary values are those of the repaired variant -/
-theorem positive_number_valid_of (vz vx : Variant) (fuel : Nat) (env : Env) (kvs : List (String × Json)) (k : NumKw)
-    (hnb : numBoundary vz vx k = numBoundary .repaired .repaired k)
+theorem positive_number_valid_of (vz vx vc : Variant) (fuel : Nat) (env : Env) (kvs : List (String × Json)) (k : NumKw)
+    (hnb : numBoundary vz vx vc k = numBoundary .repaired .repaired vc k)
     (hparse : parseNumKw kvs = some k)
     (htype : Json.lookup "type" kvs = some (.str "integer") ∨ Json.lookup "type" kvs = some (.str "number"))
     (hplain : plainKeys kvs)
     (hpos : ∀ x, k.multipleOf = some x → 0 < x)
-    (hsat : ∃ n0 : Int, validF (fuel + 1) env (.obj kvs) (.num n0 0) = true) :
+    (hsat : vc = .asFound → ∃ n0 : Int, validF (fuel + 1) env (.obj kvs) (.num n0 0) = true) :
     Sound (fun gv => labelOk (fuel + 1) env (.obj kvs) gv = true) (callSound (fuel + 1) env)
-      (positiveNumber vz vx kvs) := by
+      (positiveNumber vz vx vc kvs) := by
   have htyp : ∀ n : Int, typeOk kvs (.num n 0) = true := by
     intro n; rcases htype with h | h <;> simp [typeOk, h, typeNameOk]
   have hv : ∀ n : Int, validF (fuel + 1) env (.obj kvs) (.num n 0) = true ↔ NumKw.okInt k n := by
     intro n
     rw [validF_num_plain fuel env kvs n 0 hplain, htyp n, Bool.true_and, numberOk_int hparse]
-  have hsat' : ∃ n0, NumKw.okInt k n0 := by
-    obtain ⟨n0, h⟩ := hsat; exact ⟨n0, (hv n0).1 h⟩
+  have hsat' : vc = .asFound → ∃ n0, NumKw.okInt k n0 := by
+    intro hc; obtain ⟨n0, h⟩ := hsat hc; exact ⟨n0, (hv n0).1 h⟩
   have hb : Sound (fun gv => labelOk (fuel + 1) env (.obj kvs) gv = true) (callSound (fuel + 1) env)
-      (Gen.emit ((numBoundary vz vx k).map fun (n, d) => GV.pos (.num n 0) d)) := by
+      (Gen.emit ((numBoundary vz vx vc k).map fun (n, d) => GV.pos (.num n 0) d)) := by
     rw [hnb]
     apply sound_emit
     intro gv hg
     simp only [List.mem_map] at hg
     obtain ⟨⟨n, d⟩, hm, rfl⟩ := hg
-    have := numBoundary_repaired_ok k hpos hsat' (n, d) hm
+    have := numBoundary_repaired_ok vc k hpos hsat' (n, d) hm
     simp [labelOk, GV.pos, (hv n).2 this]
   unfold positiveNumber
   simp only [hparse]
@@ -608,8 +634,8 @@ macro "sound_pos" : tactic => `(tactic| repeat (first
   | exact sound_askSchema (by assumption) | exact sound_prologue (by assumption) | exact sound_emit_pos1 (by assumption)
   | apply sound_seq | split))
 
-theorem sound_positiveNumber_any {P C vz vx kvs} (hP : OnPos P) : Sound P C (positiveNumber vz vx kvs) := by
-  have hb : ∀ k, Sound P C (Gen.emit ((numBoundary vz vx k).map fun (n, d) => GV.pos (.num n 0) d)) := by
+theorem sound_positiveNumber_any {P C vz vx vc kvs} (hP : OnPos P) : Sound P C (positiveNumber vz vx vc kvs) := by
+  have hb : ∀ k, Sound P C (Gen.emit ((numBoundary vz vx vc k).map fun (n, d) => GV.pos (.num n 0) d)) := by
     intro k
     apply sound_emit; intro gv hg
     simp only [List.mem_map] at hg
@@ -628,7 +654,7 @@ theorem sound_positiveNumber_any {P C vz vx kvs} (hP : OnPos P) : Sound P C (pos
         exact sound_emit_pos1 hP
       · exact hb _
 
-theorem sound_positiveString_any {P C ctx kvs} (hP : OnPos P) : Sound P C (positiveString ctx kvs) := by
+theorem sound_positiveString_any {P C vl ctx kvs} (hP : OnPos P) : Sound P C (positiveString vl ctx kvs) := by
   unfold positiveString strLower strUpper
   sound_pos
 
@@ -651,29 +677,35 @@ theorem dedupeWrap_pos {P name tkvs} (hP : OnPos P) : ∀ (outs : List GV) (seen
       · subst hg; exact hP _ _
       · exact ih _ g hg
 
-theorem sound_positiveObject_any {P C rec kvs template} (hP : OnPos P) : Sound P C (positiveObject rec kvs template) := by
+theorem sound_positiveObject_any {P C vm rec kvs template} (hP : OnPos P) : Sound P C (positiveObject vm rec kvs template) := by
   unfold positiveObject
   split
-  · apply sound_seq
-    · split
-      · exact sound_prologue hP
-      · apply sound_emit; intro gv hg
-        simp only [List.mem_cons, List.mem_nil_iff, or_false] at hg; subst hg; exact hP _ _
-    · apply sound_seq
-      · apply sound_emit; intro gv hg
-        simp only [List.mem_append, List.mem_filterMap, List.mem_map] at hg
-        rcases hg with (⟨name, _, hn⟩ | ⟨sel, _, rfl⟩) | hg
-        · split at hn
-          · simp only [Option.some.injEq] at hn; subst hn; exact hP _ _
-          · simp at hn
-        · exact hP _ _
-        · split at hg
-          · simp at hg
-          · simp only [List.mem_cons, List.mem_nil_iff, or_false] at hg; subst hg; exact hP _ _
-      · apply sound_forEach
-        intro ⟨name, sub⟩ _
-        exact sound_post (Q := fun _ => True) sound_true (fun outs _ g' hg' => dedupeWrap_pos hP outs _ g' hg')
   · exact sound_unsupported
+  · split
+    · apply sound_seq
+      · split
+        · exact sound_prologue hP
+        · apply sound_emit; intro gv hg
+          simp only [List.mem_cons, List.mem_nil_iff, or_false] at hg; subst hg; exact hP _ _
+      · apply sound_seq
+        · apply sound_emit; intro gv hg
+          simp only [List.mem_append, List.mem_filterMap] at hg
+          rcases hg with (⟨name, _, hn⟩ | ⟨sel, _, hn⟩) | hg
+          · split at hn
+            · simp only [Option.some.injEq] at hn; subst hn; exact hP _ _
+            · simp at hn
+          · split at hn
+            · simp only [Option.some.injEq] at hn; subst hn; exact hP _ _
+            · simp at hn
+          · split at hg
+            · simp at hg
+            · split at hg
+              · simp only [List.mem_cons, List.mem_nil_iff, or_false] at hg; subst hg; exact hP _ _
+              · simp at hg
+        · apply sound_forEach
+          intro ⟨name, sub⟩ _
+          exact sound_post (Q := fun _ => True) sound_true (fun outs _ g' hg' => dedupeWrap_pos hP outs _ g' hg')
+    · exact sound_unsupported
 
 /-! ### generic soundness of the negative arms -/
 
@@ -685,7 +717,7 @@ theorem sound_emit_neg1' {P C v d loc param} (hN : OnNeg P) : Sound P C (Gen.emi
   apply sound_emit; intro gv hg
   simp only [List.mem_cons, List.mem_nil_iff, or_false] at hg; subst hg; exact hN _ _ _ _
 
-theorem sound_needTemplate_any {P C kvs k} (hk : ∀ t, Sound P C (k t)) : Sound P C (needTemplate kvs k) := by
+theorem sound_needTemplate_any {P C vt kvs k} (hk : ∀ t, Sound P C (k t)) : Sound P C (needTemplate vt kvs k) := by
   unfold needTemplate
   apply sound_withTmpl; intro t
   split
@@ -746,9 +778,9 @@ theorem sound_negLength_any {P C ctx kvs n d} (hN : OnNeg P) : Sound P C (negLen
 
 /-- every value of a negative arm is labelled negative (more generally: satisfies any `P` that holds of all
     negative-labelled values), provided the recursive calls — all made with a negative-only context — do -/
-theorem sound_negArm_any {P C rec vx ctx kvs types key value} (hN : OnNeg P)
+theorem sound_negArm_any {P C rec vx va vt ctx kvs types key value} (hN : OnNeg P)
     (hrec : ∀ c s, c.pos = false → Sound P C (rec c s)) :
-    Sound P C (negArm rec vx ctx kvs types key value) := by
+    Sound P C (negArm rec vx va vt ctx kvs types key value) := by
   unfold negArm
   cases armOf key <;> simp only [negArmTag]
   case enum => exact sound_negEnum_any hN
@@ -877,7 +909,9 @@ theorem sound_coverBody_any {P C rec vs ctx schema}
     Sound P C (coverBody rec vs ctx schema) := by
   unfold coverBody
   split
-  · exact sound_coverCore_any hP hN
+  · split
+    · exact sound_nil
+    · exact sound_coverCore_any hP hN
   · split
     · exact sound_unsupported
     · split
@@ -1109,9 +1143,9 @@ theorem lookup_of_exKw {kvs key value o} (hl : Json.lookup key kvs = some value)
     | num m => have := exKw_num hk; rw [hl] at this; right; right; exact ⟨m, by simpa using this⟩
 
 /-- every negative arm of a plain numeric schema labels its values correctly (repaired exclusive-bound site) -/
-theorem sound_negArm_numeric {fuel env kvs k rec ctx types key value} (hoas : env.oas = Oas.none)
+theorem sound_negArm_numeric {fuel env kvs k rec va vt ctx types key value} (hoas : env.oas = Oas.none)
     (hp : PlainNumeric kvs) (hparse : parseNumKw kvs = some k) (hmem : (key, value) ∈ kvs) :
-    Sound (NumP fuel env kvs) (oracleOk (fuel + 3) env) (negArm rec .repaired ctx kvs types key value) := by
+    Sound (NumP fuel env kvs) (oracleOk (fuel + 3) env) (negArm rec .repaired va vt ctx kvs types key value) := by
   have href : Json.lookup "$ref" kvs = none := hp.plain.1
   have hl := hp.noShadow key value hmem
   obtain ⟨f1, f2, f3, f4, f5, _⟩ := parse_fields hparse
@@ -1123,7 +1157,7 @@ theorem sound_negArm_numeric {fuel env kvs k rec ctx types key value} (hoas : en
     show Sound _ _ (negType ctx (.str t))
     exact sound_negType_numeric hoas href hl
   · -- maximum
-    show Sound _ _ (negArmTag rec .repaired ctx kvs types .maximum value)
+    show Sound _ _ (negArmTag rec .repaired va vt ctx kvs types .maximum value)
     simp only [negArmTag]
     rcases lookup_num_of_intKw hl f2 with rfl | ⟨m, rfl⟩
     · simp only [pyInt?]; exact sound_unsupported
@@ -1136,7 +1170,7 @@ theorem sound_negArm_numeric {fuel env kvs k rec ctx types key value} (hoas : en
         simp only [List.mem_cons, List.mem_nil_iff, or_false] at hgv; subst hgv
         exact labelOk_neg (neg_maximum_rejected href hl).1
   · -- minimum
-    show Sound _ _ (negArmTag rec .repaired ctx kvs types .minimum value)
+    show Sound _ _ (negArmTag rec .repaired va vt ctx kvs types .minimum value)
     simp only [negArmTag]
     rcases lookup_num_of_intKw hl f1 with rfl | ⟨m, rfl⟩
     · simp only [pyInt?]; exact sound_unsupported
@@ -1149,7 +1183,7 @@ theorem sound_negArm_numeric {fuel env kvs k rec ctx types key value} (hoas : en
         simp only [List.mem_cons, List.mem_nil_iff, or_false] at hgv; subst hgv
         exact labelOk_neg (neg_minimum_rejected href hl).1
   · -- exclusiveMaximum
-    show Sound _ _ (negArmTag rec .repaired ctx kvs types .exclusiveMaximum value)
+    show Sound _ _ (negArmTag rec .repaired va vt ctx kvs types .exclusiveMaximum value)
     simp only [negArmTag]
     rcases lookup_of_exKw hl f4 with rfl | ⟨b, rfl⟩ | ⟨m, rfl⟩
     · exact sound_unsupported
@@ -1162,7 +1196,7 @@ theorem sound_negArm_numeric {fuel env kvs k rec ctx types key value} (hoas : en
         simp only [List.mem_cons, List.mem_nil_iff, or_false] at hgv; subst hgv
         exact labelOk_neg (neg_exclusiveMaximum_rejected href hl).1
   · -- exclusiveMinimum
-    show Sound _ _ (negArmTag rec .repaired ctx kvs types .exclusiveMinimum value)
+    show Sound _ _ (negArmTag rec .repaired va vt ctx kvs types .exclusiveMinimum value)
     simp only [negArmTag]
     rcases lookup_of_exKw hl f3 with rfl | ⟨b, rfl⟩ | ⟨m, rfl⟩
     · exact sound_unsupported
@@ -1175,7 +1209,7 @@ theorem sound_negArm_numeric {fuel env kvs k rec ctx types key value} (hoas : en
         simp only [List.mem_cons, List.mem_nil_iff, or_false] at hgv; subst hgv
         exact labelOk_neg (neg_exclusiveMinimum_rejected href hl).1
   · -- multipleOf
-    show Sound _ _ (negArmTag rec .repaired ctx kvs types .multipleOf value)
+    show Sound _ _ (negArmTag rec .repaired va vt ctx kvs types .multipleOf value)
     simp only [negArmTag]
     apply sound_ask; intro v hv
     unfold emitUnseen
@@ -1194,32 +1228,31 @@ theorem getK_none_of_lookup {kvs k} (h : Json.lookup k kvs = none) : getK kvs k 
   simp [getK, h]
 
 /-- the positive block of a plain numeric schema is `_positive_number` -/
-theorem sound_positiveBlock_numeric {fuel env kvs k rec ctx t template} (hp : PlainNumeric kvs)
+theorem sound_positiveBlock_numeric {fuel env kvs k rec ctx t template} {vs : Vs}
+    (hz : vs.zero = .repaired) (hx : vs.excl = .repaired) (hc : vs.cross = .repaired) (hp : PlainNumeric kvs)
     (ht : Json.lookup "type" kvs = some (.str t)) (htt : t = "integer" ∨ t = "number")
-    (hparse : parseNumKw kvs = some k) (hpos : ∀ x, k.multipleOf = some x → 0 < x)
-    (hsat : ∃ n0 : Int, validF (fuel + 3) env (.obj kvs) (.num n0 0) = true) :
-    Sound (NumP fuel env kvs) (oracleOk (fuel + 3) env)
-      (positiveBlock rec ⟨.repaired, .repaired⟩ ctx kvs (some t) template) := by
+    (hparse : parseNumKw kvs = some k) (hpos : ∀ x, k.multipleOf = some x → 0 < x) :
+    Sound (NumP fuel env kvs) (oracleOk (fuel + 3) env) (positiveBlock rec vs ctx kvs (some t) template) := by
   obtain ⟨h1, h2, h3, h4, h5, h6, h7, h8⟩ := hp.plain
   unfold positiveBlock
-  simp only [subSchemas?, getK_none_of_lookup h5, getK_none_of_lookup h6, getK_none_of_lookup h7, h2, h3]
+  simp only [subSchemas?, getK_none_of_lookup h5, getK_none_of_lookup h6, getK_none_of_lookup h7, h2, h3, hz, hx, hc]
   apply sound_seq
   · exact sound_nil
   · apply sound_seq
     · exact sound_nil
-    · have hnum : Sound (NumP fuel env kvs) (oracleOk (fuel + 3) env) (positiveNumber .repaired .repaired kvs) :=
+    · have hnum : Sound (NumP fuel env kvs) (oracleOk (fuel + 3) env) (positiveNumber .repaired .repaired .repaired kvs) :=
         sound_mono_calls (fun c h => oracleOk_callSound h)
-          (positive_number_valid_of .repaired .repaired (fuel + 2) env kvs k rfl hparse
-            (by rcases htt with rfl | rfl; exact Or.inl ht; exact Or.inr ht) hp.plain hpos hsat)
+          (positive_number_valid_of .repaired .repaired .repaired (fuel + 2) env kvs k rfl hparse
+            (by rcases htt with rfl | rfl; exact Or.inl ht; exact Or.inr ht) hp.plain hpos (by intro h; cases h))
       rcases htt with rfl | rfl <;> simpa using hnum
 
-/-- C03 for the numeric keyword family, end to end -/
-theorem cover_numeric_sound (fuel n : Nat) (env : Env) (hoas : env.oas = Oas.none) (ctx : Ctx)
+/-- C03 for the numeric keyword family, end to end: any variant vector whose three `_positive_number` sites are repaired
+    (the other sites are not reached from a plain numeric schema) -/
+theorem cover_numeric_sound (fuel n : Nat) (env : Env) (hoas : env.oas = Oas.none) (ctx : Ctx) (vs : Vs)
+    (hz : vs.zero = .repaired) (hx : vs.excl = .repaired) (hc : vs.cross = .repaired)
     (kvs : List (String × Json)) (k : NumKw) (hp : PlainNumeric kvs)
-    (hparse : parseNumKw kvs = some k) (hpos : ∀ x, k.multipleOf = some x → 0 < x)
-    (hsat : ∃ n0 : Int, validF (fuel + 3) env (.obj kvs) (.num n0 0) = true) :
-    Sound (NumP fuel env kvs) (oracleOk (fuel + 3) env)
-      (coverTop (n + 1) ⟨.repaired, .repaired⟩ ctx (.obj kvs)) := by
+    (hparse : parseNumKw kvs = some k) (hpos : ∀ x, k.multipleOf = some x → 0 < x) :
+    Sound (NumP fuel env kvs) (oracleOk (fuel + 3) env) (coverTop (n + 1) vs ctx (.obj kvs)) := by
   obtain ⟨t, ht, htt⟩ := hp.typed
   unfold coverTop
   apply sound_freshSeen
@@ -1231,13 +1264,13 @@ theorem cover_numeric_sound (fuel n : Nat) (env : Env) (hoas : env.oas = Oas.non
     simp only [hty]
     unfold coverCore
     have hpft : Sound (NumP fuel env kvs) (oracleOk (fuel + 3) env)
-        (positiveForType (cover n ⟨.repaired, .repaired⟩) ⟨.repaired, .repaired⟩ ctx kvs (some t)) := by
+        (positiveForType (cover n vs) vs ctx kvs (some t)) := by
       unfold positiveForType
       have hne : (some t == some "object" || some t == some "array") = false := by
         rcases htt with rfl | rfl <;> decide
       simp only [hne, Bool.false_eq_true, if_false]
       split
-      · exact sound_positiveBlock_numeric hp ht htt hparse hpos hsat
+      · exact sound_positiveBlock_numeric hz hx hc hp ht htt hparse hpos
       · exact sound_nil
     apply sound_seq
     · simp only [List.isEmpty_cons, Bool.false_eq_true, if_false]; exact sound_nil
@@ -1248,6 +1281,7 @@ theorem cover_numeric_sound (fuel n : Nat) (env : Env) (hoas : env.oas = Oas.non
       · split
         · apply sound_scopedTmpl
           apply sound_forEach; intro ⟨key, value⟩ hm
+          rw [hx]
           exact sound_guard (sound_negArm_numeric hoas hp hparse hm)
         · exact sound_nil
 
@@ -1419,17 +1453,24 @@ theorem sound_ite_nil {P C} {c : Bool} {a : Gen} (h : c = true → Sound P C a) 
   · simp only [hc, if_true]; exact h hc
   · simp only [hc, if_false]; exact sound_nil
 
-/-- `_positive_string` on a schema whose length bounds do not cross: every non-exempt value conforms -/
-theorem positive_string_sound (fuel : Nat) (env : Env) (hoas : env.oas = Oas.none) (ctx : Ctx)
+/-- `_positive_string`: every non-exempt value conforms — unconditionally with the crossing guard (`vl = .repaired`),
+    on schemas whose length bounds do not cross without it -/
+theorem positive_string_sound (vl : Variant) (fuel : Nat) (env : Env) (hoas : env.oas = Oas.none) (ctx : Ctx)
     (kvs : List (String × Json)) (mn0 mx : Option Nat) (href : Json.lookup "$ref" kvs = none)
     (hmn : lenKw? kvs "minLength" = some mn0) (hmx : lenKw? kvs "maxLength" = some mx)
-    (hsat : ∀ a b, mn0 = some a → mx = some b → a ≤ b) :
-    Sound (StrP fuel env kvs) (callSound (fuel + 1) env) (positiveString ctx kvs) := by
+    (hsat : vl = .asFound → ∀ a b, mn0 = some a → mx = some b → a ≤ b) :
+    Sound (StrP fuel env kvs) (callSound (fuel + 1) env) (positiveString vl ctx kvs) := by
   have nmin : natKw kvs "minLength" = mn0 := natKw_of_lenKw hmn
   have nmax : natKw kvs "maxLength" = mx := natKw_of_lenKw hmx
   have hdirect : ∀ d, Sound (StrP fuel env kvs) (callSound (fuel + 1) env) (askSchema (.obj kvs) d) := by
     intro d
     exact sound_askDerived hoas href (sameExcept_refl _ _) (fun n h => h)
+  -- what the crossing guard / the hypothesis give
+  have hcross : ∀ (c : Bool) (a b : Nat), crossOk vl c = true → (c = true → a ≤ b) → mn0 = some a → mx = some b → a ≤ b := by
+    intro c a b hc hyes ha hb
+    cases vl with
+    | asFound => exact hsat rfl a b ha hb
+    | repaired => exact hyes (by simpa [crossOk] using hc)
   unfold positiveString
   simp only [hmn, hmx]
   -- normalise `min_length == 0 -> None`
@@ -1447,7 +1488,7 @@ theorem positive_string_sound (fuel : Nat) (env : Env) (hoas : env.oas = Oas.non
          | none => Gen.unsupported
          | some gvs => Gen.emit gvs)
       else if mn.isNone && isNoneOrZero mx then askSchema (.obj kvs) .validString
-      else if hasKey kvs "pattern" then askSchema (.obj kvs) .validString
+      else if hasKey kvs "pattern" && crossOk vl (!(lenCross mn mx)) then askSchema (.obj kvs) .validString
       else Gen.nil) := by
     intro mn
     by_cases he : hasExamples kvs = true
@@ -1461,12 +1502,12 @@ theorem positive_string_sound (fuel : Nat) (env : Env) (hoas : env.oas = Oas.non
       by_cases h1 : (mn.isNone && isNoneOrZero mx) = true
       · simp only [h1, if_true]; exact hdirect _
       · simp only [h1, Bool.false_eq_true, if_false]
-        by_cases h2 : hasKey kvs "pattern" = true
+        by_cases h2 : (hasKey kvs "pattern" && crossOk vl (!(lenCross mn mx))) = true
         · simp only [h2, if_true]; exact hdirect _
         · simp only [h2, Bool.false_eq_true, if_false]; exact sound_nil
   -- the "Maximum length" / near-boundary requests of the upper block, whatever the local `seen` set is
   have hupper : ∀ (mn : Option Nat) (seen : List Nat), (mn = none ∧ (mn0 = none ∨ mn0 = some 0)) ∨ (∃ m, mn = some m ∧ mn0 = some m ∧ m ≠ 0) →
-      Sound (StrP fuel env kvs) (callSound (fuel + 1) env) (strUpper kvs mn mx seen) := by
+      Sound (StrP fuel env kvs) (callSound (fuel + 1) env) (strUpper vl kvs mn mx seen) := by
     intro mn seen hmnc
     unfold strUpper
     cases hM : mx with
@@ -1474,7 +1515,7 @@ theorem positive_string_sound (fuel : Nat) (env : Env) (hoas : env.oas = Oas.non
     | some M =>
       simp only
       apply sound_seq
-      · by_cases hc : (decide (M < BUFFER) && !(seen.contains M)) = true
+      · by_cases hc : (decide (M < BUFFER) && !(seen.contains M) && crossOk vl (geOptNat M mn)) = true
         · simp only [hc, if_true]
           apply sound_askDerived hoas href (same_min kvs M)
           intro n h
@@ -1484,7 +1525,16 @@ theorem positive_string_sound (fuel : Nat) (env : Env) (hoas : env.oas = Oas.non
           have h1 := h.1 M rfl
           have h2 := h.2 M rfl
           refine ⟨fun a ha => ?_, fun b hb => by cases hb; exact h2⟩
-          have := hsat a M ha hM; omega
+          simp only [Bool.and_eq_true] at hc
+          have : a ≤ M := by
+            rcases hmnc with ⟨hn, hz⟩ | ⟨m, hm, hm0, _⟩
+            · rcases hz with hz | hz
+              · rw [hz] at ha; cases ha
+              · rw [hz] at ha; cases ha; omega
+            · rw [hm0] at ha; cases ha
+              apply hcross (geOptNat M mn) a M hc.2 _ hm0 hM
+              intro hge; rw [hm] at hge; simpa [geOptNat] using hge
+          omega
         · simp only [hc, Bool.false_eq_true, if_false]; exact sound_nil
       · cases M with
         | zero => exact sound_nil
@@ -1507,7 +1557,7 @@ theorem positive_string_sound (fuel : Nat) (env : Env) (hoas : env.oas = Oas.non
               · rw [hz] at ha; cases ha; omega
             · subst hm
               rw [hm0] at ha; cases ha
-              simp only [decide_eq_true_eq] at hge; omega
+              simp only [geOptNat, decide_eq_true_eq] at hge; omega
   apply sound_seq (hpro _)
   rcases hnorm with ⟨hn, hz⟩ | ⟨m, hm, hm0, hmne⟩
   · rw [hn]
@@ -1520,7 +1570,8 @@ theorem positive_string_sound (fuel : Nat) (env : Env) (hoas : env.oas = Oas.non
       by_cases hb : m < BUFFER
       · simp only [hb, if_true]
         apply sound_seq
-        · apply sound_askDerived hoas href (same_max kvs m)
+        · apply sound_ite_nil; intro hfirst
+          apply sound_askDerived hoas href (same_max kvs m)
           intro n h
           rw [lenBoundsOk_iff] at h ⊢
           rw [natKw_setKey_ne _ _ _ _ (by decide), natKw_setKey_eq, nmin] at h
@@ -1528,7 +1579,10 @@ theorem positive_string_sound (fuel : Nat) (env : Env) (hoas : env.oas = Oas.non
           have h1 := h.1 m hm0
           have h2 := h.2 m rfl
           refine ⟨fun a ha => by rw [hm0] at ha; cases ha; exact h1, fun b hb' => ?_⟩
-          have := hsat m b hm0 hb'; omega
+          have : m ≤ b := by
+            apply hcross (leOptNat m mx) m b hfirst _ hm0 hb'
+            intro hle; rw [hb'] at hle; simpa [leOptNat] using hle
+          omega
         · apply sound_ite_nil; intro hcond
           · apply sound_askDerived hoas href (same_both kvs (m + 1) (m + 1))
             intro n h
@@ -1539,10 +1593,13 @@ theorem positive_string_sound (fuel : Nat) (env : Env) (hoas : env.oas = Oas.non
             have h2 := h.2 (m + 1) rfl
             refine ⟨fun a ha => by rw [hm0] at ha; cases ha; omega, fun b hb' => ?_⟩
             subst hb'
-            have hs := hsat m b hm0 rfl
-            simp only [Bool.and_eq_true, Bool.or_eq_true, decide_eq_true_eq] at hcond
+            simp only [strLowerSecond, Bool.and_eq_true, Bool.or_eq_true, decide_eq_true_eq] at hcond
             rcases hcond.2 with hc | hc
-            · simp [isNoneOrZero] at hc; omega
+            · cases vl with
+              | asFound =>
+                have hs := hsat rfl m b hm0 rfl
+                simp [maxAbsent, isNoneOrZero] at hc; omega
+              | repaired => simp [maxAbsent] at hc
             · simp [leOptNat] at hc; omega
       · simp only [hb, if_false]; exact sound_nil
     · exact hupper (some m) _ (Or.inr ⟨m, rfl, hm0, hmne⟩)
